@@ -3,6 +3,7 @@
 (* calls over 4 items (2 sponsors, sizes 1-2, expiries 1-3), item limits     *)
 (* 1..3, sponsor limits 1..3 (includes sponsor limit = total limit).         *)
 EXTENDS Mempool, TLC
+CONSTANT MaxVisits    \* longest Top pass explored (1 or 2)
 
 MCAttrs == {[i \in Items |->
               CASE i = "t1" -> [sp |-> "A", sz |-> 1, ex |-> 1]
@@ -13,6 +14,9 @@ MCAttrs == {[i \in Items |->
 Seqs12(S) == {<<a>> : a \in S} \cup {q \in {<<a, b>> : a \in S, b \in S} : q[1] # q[2]}
 Handed    == streamed \ (nextR \cup SeqSet(nextF))      \* items actually given to the builder in this stream
 Ks        == 1 .. 2
+Visit     == [i : Items, restore : BOOLEAN]
+VisitSeqs == {<<>>} \cup {<<a>> : a \in Visit}
+             \cup (IF MaxVisits >= 2 THEN {q \in {<<a, b>> : a \in Visit, b \in Visit} : q[1].i # q[2].i} ELSE {})
 Ts        == 0 .. 4
 
 Next ==
@@ -21,6 +25,7 @@ Next ==
   \/ \E t \in Ts : SetMin(t)
   \/ \E RS \in SUBSET rest : PopNext(RS)
   \/ \E i \in Items : Has(i)
+  \/ \E v \in VisitSeqs, stopped \in BOOLEAN : \E S \in SUBSET {v[k].i : k \in DOMAIN v} : Top(v, stopped, S)
   \/ StartStreaming
   \/ \E k \in Ks, RS \in SUBSET rest : PrepareStream(k, RS)
   \/ \E k \in Ks, RS \in (SUBSET rest) \cup {nextR} : Stream(k, RS)
